@@ -40,6 +40,13 @@ CHECKS = {
   "a sample goes through the real binary. Deviations are excused only by exact matchers (quirk switches in the own readers). Held on the values generated.",
   "Per-format representable domains are stated in the evidence assumptions; the TOML encoder (scalars only) and comments on the encode side are not covered.",
   "DESIGN.md §5 C14"),
+ "C13": ("exploration",
+  "generator-ground-truth monitor: an own resolver of the YAML merge-key rules (cross-checked against yaml.v3's decoding) decides three read routes of the real code",
+  "Own-emitted block YAML with anchors on maps/scalars/sequences, aliases in value positions, single and list merges with overlapping keys before/after explicit keys, nested merges; "
+  "`-o=json .`, `explode(.)` (value and no alias/anchor/<< left in the YAML) and every leaf path read through the un-exploded document must give the resolved value. "
+  "The two recorded precedence deviations are excused only when the observation equals the resolver with exactly that switch. Held on the documents generated.",
+  "Map key order is not compared; one merge entry per map; generator/yaml.v3 disagreement = inconclusive.",
+  "DESIGN.md §5 C13"),
  "C15": ("exploration",
   "law monitor: permutation, stability, idempotence, antisymmetry, transitivity and input-order independence observed on real sort/compare executions, plus agreement with a reference preorder",
   "Pools mixing null/bool/ints (64-bit extremes, hex/octal)/floats/number-like strings are sorted, pairwise sorted and compared through the real evaluator; "
